@@ -87,6 +87,7 @@ const BAD_TOKENS: [&str; 8] = ["!", "AAAA", "AAAAAAAAAAAA", "not base64 at all",
 const BAD_ENDPOINTS: [&str; 5] = ["ftp://example.com/x", "file:///etc/passwd", "//example.com", "htp://example.com", "example.com/push"];
 
 struct St {
+    light: bool,
     seq: Seq,
     rep: EpReport,
     keys: BTreeSet<String>,
@@ -118,9 +119,9 @@ impl St {
     /// After an error answer: stats of every subscription and all listings equal the model.
     async fn unchanged(&mut self, what: &str, class: &str) {
         self.seq.after_step("Rejected").await;
-        let before = self.seq.m.found.len();
-        let _ = before;
-        self.listings(what, class).await;
+        if !self.light {
+            self.listings(what, class).await;
+        }
     }
 
     async fn listings(&mut self, what: &str, class: &str) {
@@ -184,7 +185,7 @@ async fn episode(p: &EpParams) -> EpReport {
     let mut rng = Rng::new(p.ep_seed);
     let mt = p.engine == "mt";
     let w = World::new(transport_of(p), !mt, Some(rng.below(100))).await;
-    let mut st = St { seq: Seq::new(&w), rep: EpReport::default(), keys: BTreeSet::new(), answered: 0 };
+    let mut st = St { light: false, seq: Seq::new(&w), rep: EpReport::default(), keys: BTreeSet::new(), answered: 0 };
     if mt {
         st.seq.check_stats_every_step = true;
     }
@@ -200,7 +201,10 @@ async fn episode(p: &EpParams) -> EpReport {
     let mut leases1: Vec<String> = st.seq.pull(&s1, 2, true).await.iter().map(|d| d.ack_id.clone()).collect();
     st.seq.pull(&s3, 1, true).await;
 
-    let n = rng.range(20, 30);
+    let miri = p.engine == "miri";
+    // Miri executes ~0.5 s per RPC: fewer requests, listings compared at the end only
+    let n = if miri { 6 } else { rng.range(20, 30) };
+    st.light = miri;
     for step in 0..n {
         let pair = step % 5 == 4;
         let cx = st.seq.cx.clone();
